@@ -56,7 +56,7 @@ def geno_case(draw, full=False, max_snps=40, one_pop=False):
     nsnp = draw(st.integers(1, max_snps))
     seed = draw(st.integers(0, 2 ** 31 - 1))
     return dict(P=P, ninds=ninds, nsnp=nsnp, seed=seed, miss=0.0 if full else draw(st.sampled_from([0.0, 0.05, 0.3])),
-                junk=0.0 if full else draw(st.sampled_from([0.0, 0.2])), fmt=draw(st.sampled_from(['GT', 'GT:DP', 'GT:AD:DP'])),
+                junk=0.0 if full else draw(st.sampled_from([0.0, 0.2])), fmt=draw(st.sampled_from(['GT', 'GT:DP', 'GT:AD:DP', 'GT:AD:GQ'])),
                 extra_samples=draw(st.integers(0, 2)), gz=draw(st.booleans()), nchrom=draw(st.integers(1, 3)),
                 aa_mode=draw(st.sampled_from(['all', 'mixed', 'mixed', 'none'])))
 
@@ -132,7 +132,8 @@ class Data:
             s['het_ref'] = [[int(ds.randint(0, 31)) for _ in range(self.ninds[p])] for p in range(self.P)]
 
     # ------------------------------------------------------------------ writers
-    def write_vcf(self, path, popinfo_path, header_popinfo=False):
+    def write_vcf(self, path, popinfo_path, header_popinfo=False, zero_read=False):
+        self.zero_read = zero_read
         c = self.c
         cols = [s[0] for s in self.samples] + self.extra
         lines = ['##fileformat=VCFv4.2', '##source=dadi-verif', '#CHROM\tPOS\tID\tREF\tALT\tQUAL\tFILTER\tINFO\tFORMAT\t' + '\t'.join(cols)]
@@ -169,6 +170,10 @@ class Data:
         fmt = self.c['fmt']
         if g is None:
             gt, dp, ad = '.' + sep + '.', '0', '0,0'
+            if getattr(self, 'zero_read', False) and fmt != 'GT':
+                # a call without a single read that the caller still wrote as a genotype (0/0 with DP=0 / AD=0,0), as older GATK
+                # versions do: dadi treats zero read support as a missing call
+                gt = '0' + sep + '0'
         else:
             gt = '%d%s%d' % (g[0], sep, g[1])
             nalt = g[0] + g[1]
@@ -178,6 +183,8 @@ class Data:
             return gt
         if fmt == 'GT:DP':
             return gt + ':' + dp
+        if fmt == 'GT:AD:GQ':
+            return gt + ':' + ad + ':30'
         return gt + ':' + ad + ':' + dp
 
     def write_table(self, path):
@@ -248,11 +255,11 @@ def _nt(c):
     return c['P'] >= 2 or c['miss'] > 0 or c['junk'] > 0
 
 
-def write_inputs(case, data, tag='d', header_popinfo=False):
+def write_inputs(case, data, tag='d', header_popinfo=False, zero_read=False):
     d = tmpdir()
     vcf = os.path.join(d, '%s_%d.vcf%s' % (tag, os.getpid(), '.gz' if case['gz'] else ''))
     pop = os.path.join(d, '%s_%d.popinfo.txt' % (tag, os.getpid()))
-    data.write_vcf(vcf, pop, header_popinfo=header_popinfo)
+    data.write_vcf(vcf, pop, header_popinfo=header_popinfo, zero_read=zero_read)
     if case['gz'] and case['seed'] % 2 == 0:
         # compressed popinfo file too
         with open(pop) as f:
@@ -269,7 +276,8 @@ def fs_case(draw):
     c = draw(geno_case())
     proj_frac = [draw(st.floats(0.1, 1.0)) for _ in range(c['P'])]
     return dict(c, proj_frac=proj_frac, polarized=draw(st.booleans()), use_filter=draw(st.sampled_from([True, True, False])),
-                via=draw(st.sampled_from(['vcf', 'vcf', 'table'])), header_popinfo=draw(st.booleans()), calc_coverage=draw(st.booleans()))
+                via=draw(st.sampled_from(['vcf', 'vcf', 'table'])), header_popinfo=draw(st.booleans()), calc_coverage=draw(st.booleans()),
+                zero_read=draw(st.booleans()))
 
 
 @REG.relation('R1-spectrum-from-data', strategy=fs_case, quick=(500, 16), thorough=(8000, 16))
@@ -280,9 +288,9 @@ def r1(case, rec):
     projections = [max(1, int(round(2 * n * f))) for n, f in zip(case['ninds'], case['proj_frac'])]
     rec.case(case, _nt(case), ['P=%d' % case['P'], case['via'], 'polarized' if case['polarized'] else 'folded', case['fmt'], 'gz' if case['gz'] else 'plain'])
     if case['via'] == 'vcf':
-        vcf, pop = write_inputs(case, data, header_popinfo=case['header_popinfo'])
+        vcf, pop = write_inputs(case, data, header_popinfo=case['header_popinfo'], zero_read=bool(case.get('zero_read')))
         # calc_coverage (the input of the low-coverage correction) needs allelic depths in the file
-        cov = bool(case.get('calc_coverage')) and case['fmt'] == 'GT:AD:DP'
+        cov = bool(case.get('calc_coverage')) and case['fmt'] in ('GT:AD:DP', 'GT:AD:GQ')
         with dadi_call('make_data_dict_vcf'):
             dd = Misc.make_data_dict_vcf(vcf, pop, filter=case['use_filter'], **(dict(calc_coverage=True) if cov else {}))
         os.unlink(vcf)
